@@ -31,7 +31,8 @@ theorem margin_nonneg (x : LStage) (he : EarlyOK x) : 0 ≤ margin x := by
 
 set_option linter.unusedSimpArgs false in
 /-- **One stage.**  `n` is the length of the stage's input stream (its history minus the zero preload). -/
-theorem stage_need (K : Kern α) (x : LStage) (hwf : StageWF x.cfg x.s0) (he : EarlyOK x) (hist : List α) (m n : Nat)
+theorem stage_need (K : Kern α) (x : LStage) (hwf : StageWF x.cfg x.s0) (hshape : x.cfg.kind = .dft → DftShapeOK x.cfg x.s0)
+    (hist : List α) (m n : Nat)
     (hst : (unitSem K x.cfg x.s0).Stable m hist) (hlen : hist.length = x.s0.occ + n) (hout : 1 ≤ outCount x.cfg x.s0 m) :
     (tstage x).a * ((outCount x.cfg x.s0 m : ℚ) - 1) + (tstage x).b + 1 + margin x ≤ n := by
   have hlenq : (hist.length : ℚ) = (x.s0.occ : ℚ) + n := by exact_mod_cast hlen
@@ -78,8 +79,7 @@ theorem stage_need (K : Kern α) (x : LStage) (hwf : StageWF x.cfg x.s0) (he : E
       rcases Nat.eq_zero_or_pos m with h0 | h0
       · subst h0; simp [dftOuts] at hout
       · exact h0
-    unfold EarlyOK at he; simp only [hk] at he
-    have h := dft_need K x.cfg x.s0 hk hwf he.2 hist m hm1 hst
+    have h := dft_need K x.cfg x.s0 hk hwf (hshape hk) hist m hm1 hst
     have hL : 0 < x.cfg.L := by unfold StageWF at hwf; simp only [hk] at hwf; exact hwf.1
     have hLq : (0 : ℚ) < (x.cfg.L : ℕ) := by exact_mod_cast hL
     have hq : ((dftM x.cfg : ℕ) : ℚ) * (dftOuts x.cfg x.s0 m : ℕ) + (x.cfg.numTaps : ℕ) ≤
@@ -110,30 +110,27 @@ where
 
 /-- **The pipeline.**  If the canonical stream has at least one sample, the bottom input is at least as long as the
     composed time map says: `rate·(|src| − 1) + offset + 1 + margin ≤ |inp|`. -/
-theorem pinv_need (K : Kern α) (z : α) : ∀ (lp : List LStage) (l : List (DStage α)) (inp src : List α),
-    (∀ x ∈ lp, StageWF x.cfg x.s0) → PlanEarlyOK lp → PlanLatOK false lp →
+theorem pinv_need_gen (K : Kern α) (z : α) : ∀ (lp : List LStage) (l : List (DStage α)) (inp src : List α),
+    (∀ x ∈ lp, StageWF x.cfg x.s0) → PlanEarlyGen lp →
     PInv K z (lp.map LStage.toPlan) l inp src → 1 ≤ src.length →
     rateOf (lp.map tstage) * ((src.length : ℚ) - 1) + offsetOf (lp.map tstage) + 1 + margOf lp ≤ inp.length := by
   intro lp
   induction lp with
   | nil =>
-    intro l inp src _ _ _ h _
+    intro l inp src _ _ h _
     cases h
     simp [rateOf, offsetOf, margOf]
   | cons x rest ih =>
-    intro l inp src hwf he hlat h hsrc
+    intro l inp src hwf he h hsrc
     simp only [List.map_cons, LStage.toPlan] at h
     cases h with
     | @cons _ below _ s _ _ d m hb hx =>
       have hwfx := hwf x (by simp)
-      have hex := he x (by simp)
-      have hlatx := hlat x (by simp)
+      obtain ⟨hshape, hbm⟩ := he x (by simp)
       have hlen : (List.replicate x.s0.occ z ++ s).length = x.s0.occ + s.length := by simp
       have hG := G_length K x.cfg x.s0 (List.replicate x.s0.occ z ++ s) m
       rw [hG] at hsrc ⊢
-      have hst := stage_need K x hwfx hex _ m s.length hx.stable hlen hsrc
-      have hmarg := margin_nonneg x hex
-      obtain ⟨hb0, _⟩ := tstage_b_bound x hlatx
+      have hst := stage_need K x hwfx hshape _ m s.length hx.stable hlen hsrc
       have ha := rate_nonneg_map.Soxr.Cr.tstage_a_nonneg' x
       have hoc : (1 : ℚ) ≤ (outCount x.cfg x.s0 m : ℕ) := by exact_mod_cast hsrc
       -- the stage below has produced at least one sample
@@ -141,19 +138,35 @@ theorem pinv_need (K : Kern α) (z : α) : ∀ (lp : List LStage) (l : List (DSt
         have : 0 ≤ (tstage x).a * (((outCount x.cfg x.s0 m : ℕ) : ℚ) - 1) := mul_nonneg ha (by linarith)
         linarith
       have hs1 : 1 ≤ s.length := by exact_mod_cast hs1q
-      have hrec := ih below inp s (fun y hy => hwf y (by simp [hy])) (fun y hy => he y (by simp [hy]))
-        (fun y hy => hlat y (by simp [hy])) hb hs1
+      have hrec := ih below inp s (fun y hy => hwf y (by simp [hy])) (fun y hy => he y (by simp [hy])) hb hs1
       have hr := rate_nonneg_map rest
       simp only [List.map_cons, rateOf, offsetOf, margOf]
       have hmul : rateOf (rest.map tstage) * ((tstage x).a * (((outCount x.cfg x.s0 m : ℕ) : ℚ) - 1) + (tstage x).b + margin x) ≤
           rateOf (rest.map tstage) * ((s.length : ℚ) - 1) := mul_le_mul_of_nonneg_left (by linarith) hr
       nlinarith [hmul, hrec]
 
+/-- the centred (linear-phase) hypotheses imply the general ones -/
+theorem earlyGen_of_ok (lp : List LStage) (he : PlanEarlyOK lp) (hlat : PlanLatOK false lp) : PlanEarlyGen lp := by
+  intro x hx
+  have hex := he x hx
+  have hmarg := margin_nonneg x hex
+  obtain ⟨hb0, _⟩ := tstage_b_bound x (hlat x hx)
+  refine ⟨?_, by linarith⟩
+  intro hk
+  unfold EarlyOK at hex; simp only [hk] at hex
+  exact hex.2
+
+theorem pinv_need (K : Kern α) (z : α) (lp : List LStage) (l : List (DStage α)) (inp src : List α)
+    (hwf : ∀ x ∈ lp, StageWF x.cfg x.s0) (he : PlanEarlyOK lp) (hlat : PlanLatOK false lp)
+    (h : PInv K z (lp.map LStage.toPlan) l inp src) (hsrc : 1 ≤ src.length) :
+    rateOf (lp.map tstage) * ((src.length : ℚ) - 1) + offsetOf (lp.map tstage) + 1 + margOf lp ≤ inp.length :=
+  pinv_need_gen K z lp l inp src hwf (earlyGen_of_ok lp he hlat) h hsrc
+
 /-- **Never early, for every run.**  In the state reached by any streaming run (any interleaving of input blocks and
     output requests, end-of-input not yet signalled) that has delivered at least one frame, the frames accepted so
     far number at least `rate·(delivered − 1) + offset + 1 + margin`. -/
-theorem never_early_run (K : Kern α) (z : α) (owed : Nat → Nat) (lp : List LStage) (hwf : ∀ x ∈ lp, StageWF x.cfg x.s0)
-    (he : PlanEarlyOK lp) (hlat : PlanLatOK false lp) (ops : List (DOp α)) (F D : List α) (e : DEng α)
+theorem never_early_run_gen (K : Kern α) (z : α) (owed : Nat → Nat) (lp : List LStage) (hwf : ∀ x ∈ lp, StageWF x.cfg x.s0)
+    (he : PlanEarlyGen lp) (ops : List (DOp α)) (F D : List α) (e : DEng α)
     (r : DRuns K z owed (DEng.fresh z (lp.map LStage.toPlan)) ops F D e) (hfl : e.fl = false) (hD : 1 ≤ D.length) :
     rateOf (lp.map tstage) * ((D.length : ℚ) - 1) + offsetOf (lp.map tstage) + 1 + margOf lp ≤ F.length := by
   have hpw : PlanWF (lp.map LStage.toPlan) := by
@@ -167,11 +180,17 @@ theorem never_early_run (K : Kern α) (z : α) (owed : Nat → Nat) (lp : List L
   subst hpad0
   rw [List.append_nil] at hp
   have hlen : D.length ≤ src.length := by rw [← hsrc, List.length_append]; omega
-  have h := pinv_need K z lp e.stages F src hwf he hlat hp (by omega)
+  have h := pinv_need_gen K z lp e.stages F src hwf he hp (by omega)
   have hr := rate_nonneg_map lp
   have hq : (D.length : ℚ) ≤ (src.length : ℚ) := by exact_mod_cast hlen
   have : rateOf (lp.map tstage) * ((D.length : ℚ) - 1) ≤ rateOf (lp.map tstage) * ((src.length : ℚ) - 1) :=
     mul_le_mul_of_nonneg_left (by linarith) hr
   linarith
+
+theorem never_early_run (K : Kern α) (z : α) (owed : Nat → Nat) (lp : List LStage) (hwf : ∀ x ∈ lp, StageWF x.cfg x.s0)
+    (he : PlanEarlyOK lp) (hlat : PlanLatOK false lp) (ops : List (DOp α)) (F D : List α) (e : DEng α)
+    (r : DRuns K z owed (DEng.fresh z (lp.map LStage.toPlan)) ops F D e) (hfl : e.fl = false) (hD : 1 ≤ D.length) :
+    rateOf (lp.map tstage) * ((D.length : ℚ) - 1) + offsetOf (lp.map tstage) + 1 + margOf lp ≤ F.length :=
+  never_early_run_gen K z owed lp hwf (earlyGen_of_ok lp he hlat) ops F D e r hfl hD
 
 end Soxr.Cr
